@@ -473,5 +473,19 @@ def main(argv=None):
     return 1 if nviol else 0
 
 
+def _main_in_scratch():
+    """Every temporary directory of a run (scratch packages of C05 / C16, ...) lives under one per-run directory that is removed
+    when the run ends, however its worker processes ended."""
+    import shutil
+    import tempfile
+    scratch = tempfile.mkdtemp(prefix='verif_run_')
+    os.environ['TMPDIR'] = scratch
+    tempfile.tempdir = None
+    try:
+        return main()
+    finally:
+        shutil.rmtree(scratch, ignore_errors=True)
+
+
 if __name__ == '__main__':
-    sys.exit(main())
+    sys.exit(_main_in_scratch())
